@@ -49,7 +49,7 @@ def run(ctx):
                              nontrivial=lambda op, impl: " L=-" not in op)
     ctx.coverage["rule"] = (
         "tok: the driver's real bytes (uncompressed layouts, random cut) through the Lean byte tokenizer; rtrace / ftrace: RL.* / RF.* hook traces of every Reader scenario replayed through the loop LTS / checked against the front model; fetchx: the fetch generator read after the batch's adjusted deadline has passed (58 cases quick / 318 thorough; out must be RequestTimedOut); fetchts: stored timestamp 0 (D21); fetch: logs of 1..6 original batches in format 2 / 1 / 0 / mixed(1 then 2), compaction modes keep-all, random holes, head holes, tail holes, "
-        "empty (retained bare header, sometimes dropped), whole-batch gaps, codecs none/gzip/snappy/lz4/zstd (v2) and gzip/snappy/lz4 wrappers (v0/v1), start offset anywhere "
+        "empty (retained bare header, sometimes dropped), whole-batch gaps, codecs none/gzip/snappy/lz4/zstd (v2) and gzip/snappy/lz4 wrappers (v0/v1; one in three with a key of 0-8 bytes, C05-D31), start offset anywhere "
         "in the log incl. the log end, served from the batch containing it (3/4) or from the log start, cut: none / uniform byte / within the last 70 bytes; fetch v2/v5/v10 round robin; "
         "iter: the same logs served under the fetch contract with 1..3 cycling byte budgets from {1,80,150,300,1000,2^20}+rand; "
         "reader: scripted Reader runs (faults cut/err/hang/move, log-start truncation, SetOffset). distinct = distinct op lines with a non-empty layout")
